@@ -59,6 +59,13 @@ class State:
         self.ver[ref.oid] = self.ver.get(ref.oid, 0) + 1
 
 
+def sync_ghost(st, g):
+    """ghost state is shared by reference between the views of a path: update in place, never rebind"""
+    if st.ghost is not g:
+        st.ghost.clear()
+        st.ghost.update(g)
+
+
 def wrap(st, v, origin='fresh', **kw):
     """containers live on the heap"""
     if isinstance(v, CONTAINERS):
@@ -669,7 +676,7 @@ class Exec:
         finally:
             del self.bound_stack[depth0:]
         st.side += loc.side
-        st.ghost = loc.ghost
+        sync_ghost(st, loc.ghost)
         # axioms introduced inside (count facts ...) are closed formulas: keep them
         from .npmodel2 import free_consts
         bound_ids = {v.get_id() for v in allvars}
@@ -786,7 +793,10 @@ class Exec:
                 r = self.ev(f.body, loc)
             finally:
                 self.modname_override = save
-            st.heap, st.ver, st.pc, st.ghost = loc.heap, loc.ver, loc.pc, loc.ghost
+            st.heap, st.ver = loc.heap, loc.ver
+            if st.pc is not loc.pc:
+                st.pc[:] = loc.pc
+            sync_ghost(st, loc.ghost)
             st.side += loc.side
             return r
         if f.kind == 'py':
@@ -832,6 +842,9 @@ class Exec:
 
     # -- repo functions: contract or inlining
     def call_repo(self, q, args, kw, st, node):
+        if not self.spec:
+            for h in getattr(self, 'before_hooks', {}).get(q.rsplit('.', 1)[-1], []):
+                h(st)
         c = self.db.get(q)
         if c is not None:
             return self.apply_contract(c, q, args, kw, st, node)
@@ -897,7 +910,10 @@ class Exec:
         if len(normal) != 1:
             raise Unsupported('inlined call to %s has %d normal paths (give it a contract)' % (q, len(normal)))
         s, k, v = normal[0]
-        st.heap, st.ver, st.pc, st.ghost = s.heap, s.ver, s.pc, s.ghost
+        st.heap, st.ver = s.heap, s.ver
+        if st.pc is not s.pc:
+            st.pc[:] = s.pc
+        sync_ghost(st, s.ghost)
         st.side += s.side
         return v if k == 'return' else None
 
